@@ -27,19 +27,29 @@ theorem apply_ctxDone (s : St) (i : Nat) (it' : Item) (e : Eff) :
   cases hr : e.rep <;> cases hc : e.check <;> simp [St.apply, hr, hc]
 theorem apply_cap (s : St) (i : Nat) (it' : Item) (e : Eff) : (s.apply i it' e).cap = s.cap := by
   cases hr : e.rep <;> cases hc : e.check <;> simp [St.apply, hr, hc]
+theorem apply_chanSet (s : St) (i : Nat) (it' : Item) (e : Eff) : (s.apply i it' e).chanSet = s.chanSet := by
+  cases hr : e.rep <;> cases hc : e.check <;> simp [St.apply, hr, hc]
 
 theorem apply_count (s : St) (i : Nat) (it' : Item) (e : Eff) :
     (s.apply i it' e).feed.length + (s.apply i it' e).dropped =
       s.feed.length + s.dropped + (if e.rep.isSome then 1 else 0) := by
   cases hr : e.rep <;> cases hc : e.check <;> simp [St.apply, hr, hc, report_count]
 
-theorem apply_cap_inv (s : St) (i : Nat) (it' : Item) (e : Eff)
-    (h : s.feed.length ≤ s.cap ∧ (s.dropped = 0 ∨ s.feed.length = s.cap)) :
-    (s.apply i it' e).feed.length ≤ (s.apply i it' e).cap ∧
-      ((s.apply i it' e).dropped = 0 ∨ (s.apply i it' e).feed.length = (s.apply i it' e).cap) := by
-  cases hr : e.rep <;> cases hc : e.check <;>
-    simp only [St.apply, hr, hc, check_feed, check_cap, check_dropped, if_true, if_false, Bool.false_eq_true] <;>
-    first | exact h | exact report_cap_inv _ _ h
+theorem check_chanInv (s : St) (h : s.ChanInv) : s.check.ChanInv := by
+  unfold St.check; split <;> (try split) <;> exact h
+
+theorem apply_cap_inv (s : St) (i : Nat) (it' : Item) (e : Eff) (h : s.ChanInv) : (s.apply i it' e).ChanInv := by
+  have h0 : St.ChanInv { s with
+      w := s.w + e.dw, t := s.t + e.dt, m := s.m + e.dm, g := s.g + e.dg,
+      c := (match e.setC with | some b => b | none => s.c),
+      stopFlag := s.stopFlag || e.setStop, ctxDone := s.ctxDone || e.setCtx,
+      stopCompleted := (if e.clrCompleted then false else s.stopCompleted),
+      items := s.items.set i it' } := h
+  cases hr : e.rep <;> cases hc : e.check <;> simp only [St.apply, hr, hc, if_true, if_false, Bool.false_eq_true]
+  · exact h0
+  · exact check_chanInv _ h0
+  · exact report_cap_inv _ _ h0
+  · exact check_chanInv _ (report_cap_inv _ _ h0)
 
 theorem apply_feed_mem (s : St) (i : Nat) (it' : Item) (e : Eff) (x : Report)
     (h : x ∈ (s.apply i it' e).feed) : x ∈ s.feed ∨ e.rep = some x := by
@@ -70,7 +80,7 @@ structure Inv (s : St) : Prop where
   c : sumBy Item.cc s.items = (if s.c then 1 else 0)
   /-- every report was delivered or found the channel full -/
   reps : s.feed.length + s.dropped = sumNat Item.reps s.items
-  cap : s.feed.length ≤ s.cap ∧ (s.dropped = 0 ∨ s.feed.length = s.cap)
+  cap : s.ChanInv
   feedPanic : ∀ r ∈ s.feed, r.sev = .panic ∧ r.stack = true ∧ r.val ≠ .nil
   loc : ∀ (i : Nat) (it : Item), s.items[i]? = some it → it.Local
   /-- while a stop is not yet complete, some item will still call checkIfStopComplete -/
@@ -159,9 +169,9 @@ theorem inv_queue {s : St} {i : Nat} {it : Item} {outs : List Outcome} (hi : Inv
   · exact hi.feedPanic
   · intro j x hx
     rcases getElem?_set_cases hx with ⟨_, rfl⟩ | ⟨_, h⟩
-    · obtain ⟨bal, _, _, _, exec, _, _⟩ := hloc
+    · obtain ⟨bal, _, _, _, exec, _, _, _⟩ := hloc
       have hex := exec hk
-      constructor <;> simp_all [Item.pendingReport]
+      constructor <;> simp_all [Item.pendingReport, Item.pcMax]
       · rcases hp with hp | hp <;> simp_all
       · rcases hp with hp | hp <;> simp_all
     · exact hi.loc j x h
@@ -310,6 +320,18 @@ theorem inv_item {s : St} {i : Nat} {ch : Bool} {it it' : Item} {e : Eff} (hi : 
       · simp [h]
       · simp [h]
 
+theorem inv_recv_take {s : St} (hi : Inv s) (h : s.taken < s.feed.length) : Inv { s with taken := s.taken + 1 } := by
+  obtain ⟨h1, h2, h3, h4⟩ := hi.cap
+  exact ⟨hi.w, hi.t, hi.m, hi.g, hi.c, hi.reps,
+    ⟨by simp only []; omega, by simp only []; omega, by simp only []; intro hw; have := h3 hw; omega, h4⟩,
+    hi.feedPanic, hi.loc, hi.stop, hi.svc⟩
+
+theorem inv_recv_park {s : St} (hi : Inv s) (h : ¬ s.taken < s.feed.length) : Inv { s with waiting := s.waiting + 1 } := by
+  obtain ⟨h1, h2, h3, h4⟩ := hi.cap
+  exact ⟨hi.w, hi.t, hi.m, hi.g, hi.c, hi.reps,
+    ⟨h1, h2, by simp only []; intro _; omega, h4⟩,
+    hi.feedPanic, hi.loc, hi.stop, hi.svc⟩
+
 theorem step_inv {s s' : St} {a : Act} (hi : Inv s) (h : step s a = some s') : Inv s' := by
   cases a with
   | item i ch =>
@@ -320,8 +342,17 @@ theorem step_inv {s s' : St} {a : Act} (hi : Inv s) (h : step s a = some s') : I
       split at h
       · cases h
       · rename_i it' e hs
-        cases h
-        exact inv_item hi hit hs
+        split at h
+        · cases h
+        · cases h
+          exact inv_item hi hit hs
+  | recv =>
+    simp only [step] at h
+    split at h
+    · cases h
+    · split at h
+      · cases h; exact inv_recv_take hi (by assumption)
+      · cases h; exact inv_recv_park hi (by assumption)
   | spawn it =>
     simp only [step] at h
     split at h
@@ -346,18 +377,42 @@ theorem run_inv {as : List Act} : ∀ {s s' : St}, Inv s → run s as = some s' 
     · cases h
     · rename_i s1 hs1; exact ih (step_inv hi hs1) h
 
-/-- A module with nothing running and an error channel with room for `cap` reports. -/
-def St.init (cap : Nat) : St := { cap := cap }
+/-- A module with nothing running; `set`: an error reporting channel has been set, `cap`: its capacity. -/
+def St.init' (set : Bool) (cap : Nat) : St := { chanSet := set, cap := cap }
 
-theorem init_inv (cap : Nat) : Inv (St.init cap) := by
-  constructor <;> simp [St.init, sumBy, sumNat]
+/-- … with an error channel of capacity `cap`. -/
+def St.init (cap : Nat) : St := St.init' true cap
 
-/-- States reachable from an idle module by any interleaving of any managed executions. -/
-def Reachable (s : St) : Prop := ∃ cap as, run (St.init cap) as = some s
+theorem init_inv (set : Bool) (cap : Nat) : Inv (St.init' set cap) := by
+  constructor <;> simp [St.init', sumBy, sumNat, St.ChanInv]
+
+/-- States reachable from an idle module — with no error channel, or one of any capacity — by any interleaving
+    of any managed executions and any behaviour of the channel's consumer. -/
+def Reachable (s : St) : Prop := ∃ set cap as, run (St.init' set cap) as = some s
 
 theorem reachable_inv {s : St} (h : Reachable s) : Inv s := by
-  obtain ⟨cap, as, h⟩ := h
-  exact run_inv (init_inv cap) h
+  obtain ⟨set, cap, as, h⟩ := h
+  exact run_inv (init_inv set cap) h
+
+theorem run_chanSet {as : List Act} : ∀ {s s' : St}, run s as = some s' → s'.chanSet = s.chanSet ∧ s'.cap = s.cap := by
+  induction as with
+  | nil => intro s s' h; simp [run] at h; subst h; exact ⟨rfl, rfl⟩
+  | cons a as ih =>
+    intro s s' h
+    simp only [run] at h
+    split at h
+    · cases h
+    · rename_i s1 hs1
+      have h1 := ih h
+      suffices s1.chanSet = s.chanSet ∧ s1.cap = s.cap by rw [h1.1, h1.2]; exact this
+      cases a with
+      | item i ch =>
+        simp only [step] at hs1
+        (repeat' split at hs1) <;> cases hs1
+        exact ⟨apply_chanSet _ _ _ _, apply_cap _ _ _ _⟩
+      | recv => simp only [step] at hs1; (repeat' split at hs1) <;> cases hs1 <;> exact ⟨rfl, rfl⟩
+      | spawn it => simp only [step] at hs1; (repeat' split at hs1) <;> cases hs1; exact ⟨rfl, rfl⟩
+      | queue i outs => simp only [step] at hs1; (repeat' split at hs1) <;> cases hs1; exact ⟨rfl, rfl⟩
 
 theorem allDone_iff (s : St) : s.allDone = true ↔ ∀ it ∈ s.items, it.done = true := by
   simp [St.allDone]
@@ -396,19 +451,19 @@ theorem svc_restart_path (env : Env) (it : Item) (hk : it.kind = .svc) (hp : it.
     ∃ n it', n ≤ 3 ∧ itemIter env n it = some it' ∧ it'.kind = .svc ∧ it'.pc = 2 ∧ it'.cw = 1 ∧
       it'.outs = it.outs ∧ it'.runs = it.runs := by
   cases hc : it.cur with
-  | ok => simp [hc, Outcome.restarts] at hr
-  | canceled => simp [hc, Outcome.restarts] at hr
+  | ok => simp [hc, Outcome.restarts, recoverRet, recovered_ne_nil, svcDecide_nil, svcDecide_err, svcDecide_canceled, svcDecide_restart, svcDecide_panicErr] at hr
+  | canceled => simp [hc, Outcome.restarts, recoverRet, recovered_ne_nil, svcDecide_nil, svcDecide_err, svcDecide_canceled, svcDecide_restart, svcDecide_panicErr] at hr
   | restart =>
     refine ⟨2, { it with pc := 2, ret := some .restart }, by omega, ?_, ?_⟩
-    · simp [itemIter, itemStep, svcStep, hk, hp, hc, recoverRet, hs]
+    · simp [itemIter, itemStep, svcStep, hk, hp, hc, recoverRet, svcDecide_nil, svcDecide_err, svcDecide_canceled, svcDecide_restart, svcDecide_panicErr, hs]
     · simp [hk, Item.cw]
   | err =>
     refine ⟨3, { it with pc := 2, ret := some .err, failCnt := it.failCnt + 1 }, by omega, ?_, ?_⟩
-    · simp [itemIter, itemStep, svcStep, hk, hp, hc, recoverRet, hs]
+    · simp [itemIter, itemStep, svcStep, hk, hp, hc, recoverRet, svcDecide_nil, svcDecide_err, svcDecide_canceled, svcDecide_restart, svcDecide_panicErr, hs]
     · simp [hk, Item.cw]
   | panic v =>
     refine ⟨3, { it with pc := 2, ret := some (.panicErr (panicReport .worker v)), reps := it.reps + 1, failCnt := it.failCnt + 1 }, by omega, ?_, ?_⟩
-    · simp [itemIter, itemStep, svcStep, hk, hp, hc, recoverRet, recovered_ne_nil, hs]
+    · simp [itemIter, itemStep, svcStep, hk, hp, hc, recoverRet, svcDecide_nil, svcDecide_err, svcDecide_canceled, svcDecide_restart, svcDecide_panicErr, recovered_ne_nil, hs]
     · simp [hk, Item.cw]
 
 /-- Number of runs of a service worker whose function produces the outcomes `os` (then nil), module not stopping. -/
@@ -430,7 +485,7 @@ theorem svc_loop_runs (env : Env) (hs : env.stopFlag = false) : ∀ (os : List O
   | nil =>
     intro it hk hp ho
     refine ⟨5, { it with pc := 7, cur := .ok, runs := it.runs + 1, ret := some .nil }, ?_, by simp [hk], rfl, by simp [svcRuns]⟩
-    simp [itemIter, itemStep, svcStep, hk, hp, hs, Item.take, ho, recoverRet]
+    simp [itemIter, itemStep, svcStep, hk, hp, hs, Item.take, ho, recoverRet, svcDecide_nil, svcDecide_err, svcDecide_canceled, svcDecide_restart, svcDecide_panicErr]
   | cons o r ih =>
     intro it hk hp ho
     -- the state after the run with outcome o, at the recover block
@@ -440,34 +495,34 @@ theorem svc_loop_runs (env : Env) (hs : env.stopFlag = false) : ∀ (os : List O
       simp [itemIter, itemStep, svcStep, hk, hp, hs, Item.take, ho]
     cases o with
     | ok =>
-      refine ⟨5, { it with pc := 7, cur := .ok, outs := r, runs := it.runs + 1, pans := it.pans + 0, ret := some .nil }, ?_, by simp [hk], rfl, by simp [svcRuns, Outcome.restarts]⟩
+      refine ⟨5, { it with pc := 7, cur := .ok, outs := r, runs := it.runs + 1, pans := it.pans + 0, ret := some .nil }, ?_, by simp [hk], rfl, by simp [svcRuns, Outcome.restarts, recoverRet, recovered_ne_nil, svcDecide_nil, svcDecide_err, svcDecide_canceled, svcDecide_restart, svcDecide_panicErr]⟩
       rw [base 3]
-      simp [itemIter, itemStep, svcStep, hk, recoverRet, Outcome.isPanic]
+      simp [itemIter, itemStep, svcStep, hk, recoverRet, svcDecide_nil, svcDecide_err, svcDecide_canceled, svcDecide_restart, svcDecide_panicErr, Outcome.isPanic]
     | canceled =>
-      refine ⟨5, { it with pc := 7, cur := .canceled, outs := r, runs := it.runs + 1, pans := it.pans + 0, ret := some .canceled }, ?_, by simp [hk], rfl, by simp [svcRuns, Outcome.restarts]⟩
+      refine ⟨5, { it with pc := 7, cur := .canceled, outs := r, runs := it.runs + 1, pans := it.pans + 0, ret := some .canceled }, ?_, by simp [hk], rfl, by simp [svcRuns, Outcome.restarts, recoverRet, recovered_ne_nil, svcDecide_nil, svcDecide_err, svcDecide_canceled, svcDecide_restart, svcDecide_panicErr]⟩
       rw [base 3]
-      simp [itemIter, itemStep, svcStep, hk, recoverRet, Outcome.isPanic]
+      simp [itemIter, itemStep, svcStep, hk, recoverRet, svcDecide_nil, svcDecide_err, svcDecide_canceled, svcDecide_restart, svcDecide_panicErr, Outcome.isPanic]
     | restart =>
       let it1 : Item := { it with pc := 1, cur := .restart, outs := r, runs := it.runs + 1, pans := it.pans + 0, ret := some .restart }
       obtain ⟨n, it', h1, h2, h3, h4⟩ := ih it1 (by simp [it1, hk]) rfl rfl
-      refine ⟨n + 1 + 2, it', ?_, h2, h3, by simp [h4, it1, svcRuns, Outcome.restarts]; omega⟩
+      refine ⟨n + 1 + 2, it', ?_, h2, h3, by simp [h4, it1, svcRuns, Outcome.restarts, recoverRet, recovered_ne_nil, svcDecide_nil, svcDecide_err, svcDecide_canceled, svcDecide_restart, svcDecide_panicErr]; omega⟩
       rw [base (n + 1)]
-      rw [itemIter_succ env n _ it1 {} (by simp [itemStep, svcStep, hk, recoverRet, Outcome.isPanic, it1])]
+      rw [itemIter_succ env n _ it1 {} (by simp [itemStep, svcStep, hk, recoverRet, svcDecide_nil, svcDecide_err, svcDecide_canceled, svcDecide_restart, svcDecide_panicErr, Outcome.isPanic, it1])]
       exact h1
     | err =>
       let it1 : Item := { it with pc := 1, cur := .err, outs := r, runs := it.runs + 1, pans := it.pans + 0, ret := some .err, failCnt := it.failCnt + 1 }
       obtain ⟨n, it', h1, h2, h3, h4⟩ := ih it1 (by simp [it1, hk]) rfl rfl
-      refine ⟨n + 2 + 2, it', ?_, h2, h3, by simp [h4, it1, svcRuns, Outcome.restarts]; omega⟩
+      refine ⟨n + 2 + 2, it', ?_, h2, h3, by simp [h4, it1, svcRuns, Outcome.restarts, recoverRet, recovered_ne_nil, svcDecide_nil, svcDecide_err, svcDecide_canceled, svcDecide_restart, svcDecide_panicErr]; omega⟩
       rw [base (n + 2)]
-      rw [itemIter_succ env (n + 1) _ { it1 with pc := 4 } {} (by simp [itemStep, svcStep, hk, recoverRet, Outcome.isPanic, it1])]
+      rw [itemIter_succ env (n + 1) _ { it1 with pc := 4 } {} (by simp [itemStep, svcStep, hk, recoverRet, svcDecide_nil, svcDecide_err, svcDecide_canceled, svcDecide_restart, svcDecide_panicErr, Outcome.isPanic, it1])]
       rw [itemIter_succ env n _ it1 {} (by simp [itemStep, svcStep, hk, it1])]
       exact h1
     | panic v =>
       let it1 : Item := { it with pc := 1, cur := .panic v, outs := r, runs := it.runs + 1, pans := it.pans + 1, ret := some (.panicErr (panicReport .worker v)), reps := it.reps + 1, failCnt := it.failCnt + 1 }
       obtain ⟨n, it', h1, h2, h3, h4⟩ := ih it1 (by simp [it1, hk]) rfl rfl
-      refine ⟨n + 2 + 2, it', ?_, h2, h3, by simp [h4, it1, svcRuns, Outcome.restarts]; omega⟩
+      refine ⟨n + 2 + 2, it', ?_, h2, h3, by simp [h4, it1, svcRuns, Outcome.restarts, recoverRet, recovered_ne_nil, svcDecide_nil, svcDecide_err, svcDecide_canceled, svcDecide_restart, svcDecide_panicErr]; omega⟩
       rw [base (n + 2)]
-      rw [itemIter_succ env (n + 1) _ { it1 with pc := 4 } { rep := some (panicReport .worker v) } (by simp [itemStep, svcStep, hk, recoverRet, recovered_ne_nil, Outcome.isPanic, it1])]
+      rw [itemIter_succ env (n + 1) _ { it1 with pc := 4 } { rep := some (panicReport .worker v) } (by simp [itemStep, svcStep, hk, recoverRet, svcDecide_nil, svcDecide_err, svcDecide_canceled, svcDecide_restart, svcDecide_panicErr, recovered_ne_nil, Outcome.isPanic, it1])]
       rw [itemIter_succ env n _ it1 {} (by simp [itemStep, svcStep, hk, it1])]
       exact h1
 
